@@ -41,3 +41,28 @@ def parallel(jobs):
     if errs:
         raise errs[0]
     return out
+
+
+def chunks_by_events(traces, max_events=60000, max_traces=6000):
+    """split a list of traces into consecutive chunks of bounded size: [(base index, [traces])]"""
+    out, cur, n, base = [], [], 0, 0
+    for i, t in enumerate(traces):
+        if cur and (n + len(t) > max_events or len(cur) >= max_traces):
+            out.append((base, cur))
+            cur, n, base = [], 0, i
+        cur.append(t)
+        n += len(t)
+    if cur:
+        out.append((base, cur))
+    return out
+
+
+def run_limited(jobs, limit=4):
+    """like parallel(), but at most `limit` jobs at a time; jobs: {name: (fn, args)}"""
+    import threading
+    sem = threading.Semaphore(limit)
+
+    def wrap(fn, args):
+        with sem:
+            return fn(*args)
+    return parallel({n: (wrap, (f, a)) for n, (f, a) in jobs.items()})
